@@ -267,22 +267,58 @@ def sign_events(args):
     return events
 
 
+KEY_FORMS = ["derived", "precomputed", "own-curve-object-lazy-table", "legacy-affine", "own-curve-object-eager-table", "pickled"]
+
+
+def key_form(cid, curve, d, form):
+    """The verifying key of private scalar d in one of several equivalent object forms.  Apart from "derived" the public
+    point is computed by the harness (toy arithmetic, inputs only) and handed to the library as a point object."""
+    from ecdsa import SigningKey, VerifyingKey, ellipticcurve as ec
+    name = KEY_FORMS[form]
+    if name == "derived":
+        return SigningKey.from_secret_exponent(d, curve, hashfunc=IdHash).get_verifying_key()
+    p, a, b, n, G, h = toy.params(cid)
+    x, y = toy.t_mul(d, G, p, a)
+    if name in ("precomputed", "pickled"):
+        vk = VerifyingKey.from_public_point(ec.PointJacobi(curve.curve, x, y, 1, n), curve, hashfunc=IdHash)
+        if name == "pickled":
+            return pickle.loads(pickle.dumps(vk))
+        vk.precompute()
+        return vk
+    if name == "legacy-affine":
+        return VerifyingKey.from_public_point(ec.Point(curve.curve, x, y, n), curve, hashfunc=IdHash)
+    # an equal CurveFp object of its own (as after unpickling / in another module), operand scaled with z != 1
+    cf2 = ec.CurveFp(p, a, b, h)
+    z = 2 + (d % (p - 2))
+    pt = ec.PointJacobi(cf2, x * z * z % p, y * z * z * z % p, z, n)
+    vk = VerifyingKey.from_public_point(pt, curve, hashfunc=IdHash)
+    vk.precompute(lazy=name.endswith("lazy-table"))
+    return vk
+
+
 def verify_grid_events(args):
     """op = "verify": offer every pair rs x ss to verify_digest through sigdecode_string (and a sub-grid through
     the other decoders as verifyraw events)."""
     cid, d, digests, allow, rs, ss = args
     ecdsa, curve = setup(cid)
-    from ecdsa import SigningKey, util
+    from ecdsa import util
     from ecdsa.keys import BadSignatureError, BadDigestError
     n = curve.order
     l = (len("%x" % n) + 1) // 2
-    sk = SigningKey.from_secret_exponent(d, curve, hashfunc=IdHash)
-    vk = sk.get_verifying_key()
     events = []
-    for digest in digests:
+    for di, digest in enumerate(digests):
         accepted, other = [], []
         ndig = 0
         total = 0
+        # the same public key in one of its object forms (KEY_FORMS): the accepted set may not depend on it
+        try:
+            vk = key_form(cid, curve, d, (di + d) % len(KEY_FORMS))
+        except BaseException as e:  # noqa
+            events.append({"op": "verify", "d": d, "digest": b2l(digest), "allow": allow, "rs": list(rs), "ss": list(ss),
+                           "accepted": [], "other": [[0, 0, "constructing the key (form %s) raised %s"
+                                                      % (KEY_FORMS[(di + d) % len(KEY_FORMS)], exc_name(e))]], "nother": 1,
+                           "alldigest": False})
+            continue
         for r in rs:
             rb = r.to_bytes(l, "big")
             for s in ss:
@@ -306,19 +342,47 @@ def verify_grid_events(args):
     return events
 
 
+def carrier(b, sel):
+    """bytes b as one of: bytes, bytearray, memoryview, array('B'), and - when the length allows - buffers whose items are
+    2 or 4 bytes wide (array('H'), a cast memoryview): the documented input type is "bytes-like object"."""
+    import array
+    b = bytes(b)
+    sel %= 8
+    if sel == 1:
+        return bytearray(b)
+    if sel == 2:
+        return memoryview(b)
+    if sel == 3:
+        return array.array("B", b)
+    if sel == 4 and len(b) % 2 == 0:
+        return array.array("H", b)
+    if sel == 5 and len(b) % 4 == 0 and len(b):
+        return memoryview(b).cast("I")
+    if sel == 6 and len(b) % 2 == 0 and len(b):
+        return memoryview(bytearray(b)).cast("H")
+    return b
+
+
 def verify_raw_events(args):
     """op = "verifyraw": arbitrary byte strings (mutations of genuine signatures, all short strings) through each
     decoder; the outcome is decided by TLC from SigCodec + the verification rule."""
     cid, d, digest, allow, items = args
     ecdsa, curve = setup(cid)
-    from ecdsa import SigningKey, util
-    sk = SigningKey.from_secret_exponent(d, curve, hashfunc=IdHash)
-    vk = sk.get_verifying_key()
+    from ecdsa import util
     decs = {"string": util.sigdecode_string, "strings": util.sigdecode_strings, "der": util.sigdecode_der}
     events = []
-    for dec, inp in items:
+    for ii, (dec, inp) in enumerate(items):
         try:
-            ok = vk.verify_digest(inp, digest, sigdecode=decs[dec], allow_truncate=allow)
+            vk = key_form(cid, curve, d, ii % len(KEY_FORMS))
+        except BaseException as e:  # noqa
+            events.append({"op": "verifyraw", "d": d, "digest": b2l(digest), "allow": allow, "dec": dec,
+                           "inp": [b2l(x) for x in inp] if dec == "strings" else b2l(inp),
+                           "out": "constructing the key raised " + exc_name(e)})
+            continue
+        # the same signature bytes in different bytes-like carriers (items of 1, 2 or 4 bytes)
+        offered = [carrier(x, ii + j) for j, x in enumerate(inp)] if dec == "strings" else carrier(inp, ii)
+        try:
+            ok = vk.verify_digest(offered, digest, sigdecode=decs[dec], allow_truncate=allow)
             out = "True" if ok is True else "returned %r" % (ok,)
         except BaseException as e:  # noqa
             out = exc_name(e)
